@@ -26,7 +26,7 @@ func main() {
 	c := hx.New("C02")
 	defer c.Finish()
 	lib.Init()
-	total := c.Pick(24000, 800000)
+	total := c.Pick(24000, 480000)
 	per := total / c.NBatch
 	sessions := map[string]*lib.ExpSession{}
 	defer func() {
